@@ -182,7 +182,7 @@ func (s *concSim) Yield(site int) {
 	}
 }
 
-func (s *concSim) Perm(site, n int) []int { return s.tasks[s.cur].sim.Perm(site, n) }
+func (s *concSim) Perm(site, n int, h uint64) []int { return s.tasks[s.cur].sim.Perm(site, n, h) }
 
 func (s *concSim) FS(op, name string, size int) (int, error) { return -1, nil }
 
